@@ -646,6 +646,10 @@ func (sp *specParser) parseType() ast.Expr {
 		sp.expect(token.LPAREN)
 		sp.expect(token.RPAREN)
 		return &ast.FuncType{Params: &ast.FieldList{}}
+	case token.INTERFACE:
+		sp.expect(token.LBRACE)
+		sp.expect(token.RBRACE)
+		return &ast.InterfaceType{Methods: &ast.FieldList{}}
 	}
 	sp.fail("bad type at %q", t.lit)
 	return nil
